@@ -437,7 +437,7 @@ func (w *dbWorld) entries() (string, string, error) {
 
 var dbNames = []string{"a", "b", "dev/x", "_internal/k", "", "a\nb", "é/π"}
 var dbActs = []string{"get", "info", "put", "activate", "delete", "bogus"}
-var dbPats = []string{"*", "a", "b", "dev/*", "*x", "a*", "", "_internal/*", "zz", "*/*"}
+var dbPats = []string{"*", "a", "b", "dev/*", "*x", "a*", "", "_internal/*", "zz", "*/*", "a*a", "dev/*/x", "*b*"}
 
 func genCallers(r *rand.Rand, profile string) []db.Caller {
 	cs := []db.Caller{superuser()}
@@ -488,7 +488,11 @@ func (w *dbWorld) genOp(r *rand.Rand, sh *shadow, profile string) dbOp {
 		verChoices = append(verChoices, g[r.Intn(len(g))])
 	}
 	op.ver = pick(r, verChoices)
-	switch r.Intn(6) {
+	switch r.Intn(7) {
+	case 6:
+		// almost the value most recently put under this name (one letter's case, one non-UTF-8
+		// byte, one bit, or the length differs): still a different value
+		op.val = nearDup(r, sh.last[op.name])
 	case 0:
 		op.val = []byte{}
 	case 1:
@@ -512,6 +516,10 @@ func (w *dbWorld) genOp(r *rand.Rand, sh *shadow, profile string) dbOp {
 			op.aok = 0
 		} else if x == 1 {
 			op.aok = 2
+		}
+	case "persist":
+		if r.Intn(6) == 0 {
+			op.sok = false // a failed save, then (often) the same operation again: what is acknowledged must be on disk
 		}
 	case "fault":
 		if r.Intn(3) == 0 {
@@ -596,8 +604,17 @@ func traceDB(o opts) error {
 			emit("caller\t%d\t%s\t%s", i, hx(canonPrincipal(c.Principal)), encRules(c.Permissions))
 		}
 		sh := &shadow{vers: map[string][]uint32{}, active: map[string]uint32{}, latest: map[string]uint32{}, gone: map[string][]uint32{}, last: map[string][]byte{}}
+		var retry *dbOp
 		for s := 0; s < o.steps; s++ {
 			op := w.genOp(r, sh, o.profile)
+			if retry != nil {
+				op = *retry
+				op.sok = true
+				retry = nil
+			} else if !op.sok && r.Intn(2) == 0 {
+				cp := op
+				retry = &cp
+			}
 			res := w.exec(op)
 			ent, pre, err := w.entries()
 			if err != nil {
@@ -666,4 +683,33 @@ func (w *dbWorld) reopenObs(kek tink.AEAD) string {
 		next = append(next, fmt.Sprintf("%s:%d", hx(in.Name), v))
 	}
 	return fmt.Sprintf("reopen=%s\tnext=%s\topenpure=%s", st, strings.Join(next, ","), pure)
+}
+
+
+// nearDup returns a value that differs from v in exactly one small way.
+func nearDup(r *rand.Rand, v []byte) []byte {
+	out := append([]byte(nil), v...)
+	var letters, high []int
+	for i, b := range out {
+		if (b >= 'a' && b <= 'z') || (b >= 'A' && b <= 'Z') {
+			letters = append(letters, i)
+		}
+		if b >= 0x80 {
+			high = append(high, i)
+		}
+	}
+	switch x := r.Intn(5); {
+	case x == 0 && len(letters) > 0:
+		out[letters[r.Intn(len(letters))]] ^= 0x20
+	case x == 1 && len(high) > 0:
+		i := high[r.Intn(len(high))]
+		out[i] = 0x80 + (out[i]-0x80+1+byte(r.Intn(126)))%0x80
+	case x == 2 && len(out) > 0:
+		out[r.Intn(len(out))] ^= 1 << uint(r.Intn(8))
+	case x == 3 && len(out) > 0:
+		out = out[:len(out)-1]
+	default:
+		out = append(out, byte(r.Intn(256)))
+	}
+	return out
 }
